@@ -232,6 +232,10 @@ def run_isplit(case):
     combos = [(num, nc) for nc in range(1, 61)]
     if num % 40 == 0:
         combos += [(np.int64(num), np.int32(7)), (num * 1000 + 3, 61), (num, 1000), (np.intp(num), 3.0)]
+        # row counts beyond 32 bits (the chunks of a file of billions of rows), up to the end of int64
+        combos += [(2 ** 31 + num + 5, nc) for nc in (1, 2, 3, 7, 60)] + [(2 ** 31, 1), (2 ** 32 + num, 3), (3 * 10 ** 9 + 1, 4),
+                                                                          (6 * 10 ** 9 + num, 7), (2 ** 40 + 3, 11), (2 ** 53 + 1, 5),
+                                                                          (2 ** 62 + 7 + num, 60), (2 ** 63 - 1, 7)]
     for n, nc in combos:
         wit = {"num": int(n), "nchunks": float(nc)}
         res, e = probe.attempt(algorithm.isplit, n, nc)
